@@ -94,7 +94,9 @@ pub fn run_scenario(bench: &mut Bench, sc: &Scenario, record_traffic: bool) -> S
     } else {
         sess.search(&mut bench.searcher, &board, sc.depth, None)
     };
-    let faulty = sc.miss_permille > 0 || sc.drop_permille > 0 || sc.explicit.as_ref().map(|e| !e.is_empty()).unwrap_or(false);
+    // "under cache faults" only if a fault actually fired in this run (so that the explicit
+    // replay, which lists the fired faults, classifies the same way)
+    let faulty = !sess.st().fired.is_empty();
     match &r.outcome {
         Outcome::Returned => {
             let rec = r.rec.clone().unwrap();
@@ -245,9 +247,10 @@ pub fn shrink_value(v: &Value) -> Vec<Value> {
 /// endgames (for the deeper fixed searches), terminal positions.
 pub fn pick_position(rng: &mut Rng, sparse: bool) -> crate::rules::Pos {
     if sparse {
-        return gen::sparse_position(rng);
+        return if rng.chance(1, 2) { gen::sparse_position(rng) } else { gen::advanced_pawn_position(rng) };
     }
     match rng.below(8) {
+        2 | 3 => gen::advanced_pawn_position(rng),
         0 => {
             let p = crate::rules::Pos::from_fen(*rng.pick(gen::EDGE_FENS)).unwrap();
             p
